@@ -37,9 +37,9 @@ PROPS = {
                     'harness reads goroutine wait states from runtime.Stack(all) and private tables with reflect+unsafe (no hook in /repo)'],
         'assumptions': ['every request goroutine executes Do/DoObserve once; the wrapped function returns only when the environment lets it (Finish)',
                         'Go select with several ready channels may take any of them: both outcomes are actions of the model'],
-        'level_text': 'TODO',
-        'level_note': 'TODO',
-        'explanation': 'TODO',
+        'level_text': 'Coq theorems (Properties/C16.v) over ALL schedules of the atomic sections of limitParallelRequests.go and semaphore.Weighted (arbitrarily many requests and paths, any interleaving, both outcomes of a select with two ready channels): per-path and total limits at every instant, queue = waiters in arrival order and grants pop its head, a cancelled queued waiter changes nothing but its own channel, idle tables after all calls returned and immediate admission, no lost wake-up; via an inductive invariant (counter = slot owners, queue = waiters, no stale ids). Model tied to the Go code by forced event histories (exhaustive for <= 3 requests and a prefix of the 4-request orders in quick; all 4-request orders and 5-request prefixes in thorough) plus random longer and free-running many-goroutine histories, observed after every event.',
+        'level_note': 'Trusted: Coq kernel + vm_compute; the harness (goroutine wait states from runtime.Stack, private tables via reflect); x/sync semaphore.Weighted and pkg/sync.Map modelled from their source; atomicity of the sections under their mutexes.',
+        'explanation': 'Theorems: C16_endpoint_limit, C16_total_limit, C16_fifo, C16_cancel_neutral(_select), C16_idle, C16_idle_admits, C16_no_lost_wakeup, C16_invariant for every schedule of the repaired code; C16_endpoint_limit_refuted_before_repair replays F10 on the model of the old code. Correspondence: the real LimitParallelRequests.Do driven with forced histories of arrive / arrive-with-cancelled-context / cancel / finish; after each event the status of every request, the in-flight gauge per path, (processedCounter, queue length) per path and (cur, waiters) of the semaphore must equal the model run to rest; the property clauses are evaluated on the observations.',
     },
 }
 
